@@ -221,6 +221,15 @@ def run_band(case, seed, R):
                         continue
                     expect_identity(R, B @ A, tol, f'{n2}({n1}):band-complete:{cell}:p{prec}',
                                     f'{n2}({n1}(x, Q={Q}, {N}), Q={Qb}, {n}) != x')
+                    # input-dtype alphabet: a field stored in a REAL dtype is the same field
+                    rdt = np.float64 if prec == 64 else np.float32
+                    Ar = op(R, lambda a: f1(a, Q, samples_out), n, f'{n1}:band-complete:real-input:{cell}:p{prec}', rdt, N)   # noqa
+                    if Ar is not None:
+                        R.expect_close(Ar, A, tol, f'{n1}:real-input:{cell}:p{prec}', f'{n1}({n} -> {N}, Q={Q}): operator from {np.dtype(rdt)} deltas != operator from complex deltas')
+                        expect_identity(R, B @ Ar, tol, f'{n2}({n1}):band-complete:real-input:{cell}:p{prec}', f'{n2}({n1}(real x)) != x, {n} -> {N}')
+                    Br = op(R, lambda a: f2(a, Qb, n), N, f'{n2}:band-complete-return:real-input:{cell}:p{prec}', rdt, n)   # noqa
+                    if Br is not None:
+                        R.expect_close(Br, B, tol, f'{n2}:real-input:{cell}:p{prec}', f'{n2}({N} -> {n}, Q={Qb}): operator from {np.dtype(rdt)} deltas != operator from complex deltas')
                     x = dense(n, seed, 5).astype(cdt)
                     y = R.call(f1, x.copy(), Q, N)
                     if y is FAILED:
@@ -267,6 +276,17 @@ def run_band_public(case, seed, R):
                 continue
             expect_identity(R, B @ A, tol, f'{names[1]}({names[0]}):{method}:band-complete:{cell}',
                             f'{names[1]}({names[0]}(x)) != x for {n} -> {M}x{M} -> {n}, dx={dx}, dxo={dxo}')
+            # input-dtype alphabet (complex128 above): real and single-precision storage of the same field
+            for dt in (np.float64, np.float32, np.complex64):
+                t = tol if dt is np.float64 else K_TOL * eps_of(32)
+                dn = np.dtype(dt).name
+                Ar = op(R, f1, n, f'{names[0]}:{method}:band-complete:{dn}:{cell}', dt, (M, M))
+                if Ar is not None:
+                    R.expect_close(Ar, A, t, f'{names[0]}:{method}:input-dtype:{dn}', f'{names[0]}({n} -> {M}x{M}): operator from {dn} deltas != operator from complex128 deltas')
+                    expect_identity(R, B @ Ar, t, f'{names[1]}({names[0]}):{method}:band-complete:input-dtype:{dn}', f'{names[1]}({names[0]}({dn} x)) != x for {n} -> {M}x{M} -> {n}')
+                Br = op(R, f2, (M, M), f'{names[1]}:{method}:band-complete-return:{dn}:{cell}', dt, n)
+                if Br is not None:
+                    R.expect_close(Br, B, t, f'{names[1]}:{method}:input-dtype:{dn}', f'{names[1]}({M}x{M} -> {n}): operator from {dn} deltas != operator from complex128 deltas')
         # Wavefront methods on the dense field
         w = Wavefront(x.copy(), wvl, dx, 'pupil')
         f = R.call(w.focus_fixed_sampling, efl, dxo, M, method=method)
@@ -656,10 +676,10 @@ def plan(tier, seed):
                   'pad2d\'s operator must be a 0/1 partial permutation; one seeded dense field through the functions and the Wavefront methods (energy, round trip, dx restored); non-trivial when the array has more than one sample', reset=rs),
         ScopeUnit('band_complete', band_cases, run_band,
                   f'every (input shape n, output shape N) with n in [1..{B}]^2 and n_axis <= N_axis <= {B} (real per-axis Q = N/n, integer and not) x {{mdft, czt}} x {{forward first, inverse first}} x precision {{64,32}}: '
-                  'operator of the first leg must satisfy A^H A = I, return leg (Q chosen so that N*Q\' = n*Q) times first leg must be I; seeded dense field energy and round trip', reset=rs),
+                  'operator of the first leg must satisfy A^H A = I, return leg (Q chosen so that N*Q\' = n*Q) times first leg must be I; input-dtype alphabet {complex128, float64} at precision 64 / {complex64, float32} at 32: the operators of both legs built from REAL-dtype deltas must equal those from complex deltas; seeded dense field energy and round trip', reset=rs),
         ScopeUnit('band_complete_public', pub_cases, run_band_public,
                   f'every pupil shape in [1..{B}]^2 x focal grid M x M with max(n) <= M <= {B + 1} x 2 (wavelength, efl, dx) unit sets x {{mdft, czt}} x both directions: focus_fixed_sampling / unfocus_fixed_sampling called with the physical '
-                  'output spacing wvl*efl/(dx*M) that makes the band complete; A^H A = I and return o forward = I on operator matrices; Wavefront methods on a dense field', reset=rs),
+                  'output spacing wvl*efl/(dx*M) that makes the band complete; A^H A = I and return o forward = I on operator matrices; input-dtype alphabet {complex128, complex64, float64, float32}: both legs\' operators from every dtype equal the complex128 ones; Wavefront methods on a dense field', reset=rs),
         ScopeUnit('free_space', free_cases, run_free,
                   f'every shape in [1..{Bf}]^2 x wvl in {{0.5,1.55}} x dx in {{0.01,0.25}} x precision {{64,32}}; inside every case z ranges over {ZS}, all 16 ordered pairs (z1,z2), all sums and negations: '
                   '|tf| = 1, tf(0) = 1, tf(z1) tf(z2) = tf(z1+z2) on the grid and the doubled grid; operator matrices of angular_spectrum with Q=1 and Q=2 (padding form): AS(0) = id / zero padding, A^H A = I, AS(-z) AS(z) = I, '
